@@ -6,6 +6,7 @@ from ..cmdeval import *
 from ..cmdeval import _F
 from ..facade_eval import SCSI_MOD
 from ..rt import *
+from ..interp import Frame
 from ..standin import StandIn
 from ..values import *
 from .c03 import make_scsi_device, make_iscsi_device
@@ -218,6 +219,46 @@ def check(prog, run, reps=None, only_reattach=False):
                                   file, callf.node.lineno, callf.qualname)
                 else:
                     run.ok("reattach", c, {"first": g1, "second": g2})
+    # the facade as applications (and the repository's own tests, tests/mock_device.py) use it: a subclass with a constructor
+    # of its own, attached later by calling it -- the attach still probes the device and selects its command set
+    if not only_reattach:
+        import ast as _ast
+        src = ("class FacadeSubclass(SCSI):\n"
+               "    def __init__(self, tag, dev=None):\n"
+               "        self.tag = tag\n"
+               "        self.device = dev\n"
+               "        self._blocksize = 0\n")
+        fr = Frame(I, scsi_cls.module, func=callf, locals_={"SCSI": scsi_cls})
+        I.exec_stmt(_ast.parse(src).body[0], fr)
+        sub_cls = fr.locals["FacadeSubclass"]
+        for b in reps:
+            si = StandIn(prog, check_condition="never", device_bytes=device_bytes_for(b)).install()
+            try:
+                def ts(b=b):
+                    d2 = fresh_device(prog)
+                    d2.attrs["_opcodes"] = tables["spc"]
+                    s = I.instantiate(sub_cls, ["x"], {}, None, _F())
+                    I.call_function(callf, [s, d2], {}, None, _F())
+                    sent = [e for e in I.events if e["kind"] == "external-call" and e["name"] == "sgio.execute"]
+                    return s, d2, len(sent)
+                ps = I.explore(ts, max_paths=16)
+            finally:
+                si.remove()
+            c = "a subclass of SCSI attached by calling it, device type %#04x" % b
+            for p in ps:
+                if not p.returned:
+                    run.violation("reattach", c, "raises %s" % p.raised.describe(), file, callf.node.lineno, callf.qualname)
+                    continue
+                s, d2, nsent = p.value
+                g2 = byid.get(id(d2.attrs.get("_opcodes")))
+                w2 = reffacade.DEVICE_TYPE_SET.get(b)
+                prim_ok = g2 is not None and all(n in tables[g2].members for n in reffacade.PRIMARY_COMMANDS)
+                if nsent != 1 or (w2 is not None and g2 != w2) or (w2 is None and not prim_ok) or s.attrs.get("device") is not d2:
+                    run.violation("reattach", c, "%d INQUIRY commands sent, the device gets %r (expected %r), facade.device is %s the new device"
+                                  % (nsent, g2, w2 or "a set with the primary commands", "" if s.attrs.get("device") is d2 else "not"),
+                                  file, callf.node.lineno, callf.qualname)
+                else:
+                    run.ok("reattach", c, {"set": g2})
     run.count("byte0_values", nvals)
     run.count("reattach_pairs", npairs)
     if not only_reattach:
